@@ -443,6 +443,14 @@ pub fn run(tier: Tier) -> ! {
             },
         ));
     }
+    // several lookaheads in one mode whose token types are prefixes of each other as decimal
+    // numbers (1 / 11 / 112, 2 / 21, 12 / 121) and whose automata have more than ten states:
+    // node names built from token type and state id must stay distinct
+    for (t1, t2, t3) in [(1usize, 11usize, 112usize), (2, 21, 212), (12, 121, 1), (3, 30, 303), (10, 101, 1)] {
+        let long = "abcdefghijklmnopqrstu";
+        cfgs.push(("lookaheads".into(), Cfg::single(vec![CPat::new("a", t1).with_la(true, long), CPat::new("b", t2).with_la(false, &long[..13]), CPat::new("x", t3).with_la(true, "ab"), CPat::new("[abx]", 0)])));
+        cfgs.push(("lookaheads".into(), Cfg::single(vec![CPat::new("a", t2).with_la(false, "ab"), CPat::new("b", t1).with_la(true, &long[..12]), CPat::new("x", t3).with_la(false, long)])));
+    }
     // labels needing escapes
     let odd = ["A\"B", "back\\slash", "tab\tname", "curly{|}<>", "ünï€😀", "semi;colon=[x]", "quote\\\"both", "-> arrow", "trailing\\"];
     for n in odd {
